@@ -885,8 +885,13 @@ impl Ref {
                     }
                 }
             }
-            Inkey | Rnd | Date | Time => {
-                self.grey("INKEY$/RND/DATE$/TIME$ are not modelled");
+            Inkey => {
+                // the simulated operator of the model-judged checks never has a key down: every poll
+                // is answered with the empty string (and leaves the cursor where it is)
+                Ok(V::T(String::new()))
+            }
+            Rnd | Date | Time => {
+                self.grey("RND/DATE$/TIME$ are not modelled");
                 Ok(V::I(0))
             }
         }
